@@ -134,5 +134,64 @@ class Legacy(Family):
         return 'all 256 hash types agree (%d constant-1 cases)' % nerr, True, 512 if si != 18 else 256
 
 
+class ManyInputs(Family):
+    """a transaction with 300 inputs and 3 outputs: indices 0, 1, 255..259, 299 and 300 (out of range) x 24 hash types -
+    input positions in the middle of a long list, not only at its ends"""
+    name = 'many_inputs'
+    nontrivial_rule = 'every case'
+    HTS = [0x01, 0x02, 0x03, 0x81, 0x82, 0x83, 0x00, 0x22, 0x43, 0xc2, 0xe3, 0xff]
+
+    def shards(self, tier):
+        return [(idx, mut) for idx in (0, 1, 2, 3, 255, 256, 257, 258, 259, 299, 300) for mut in (False, True)]
+
+    def cases(self, shard, tier):
+        yield shard
+
+    def check(self, case):
+        from bitcoin.core.script import RawSignatureHash, CScript
+        idx, mut = case
+        m = C.default_tx(300, 3)
+        for i, inp in enumerate(m['vin']):
+            inp['seq'] = 0x10000 + i
+            inp['n'] = i
+        tx = C.lib_tx(m, mutable=mut)
+        script = SCRIPTS[3]
+        before = snapshot(tx) if mut else None
+        for ht in self.HTS:
+            want, werr = SH.legacy(script, m, idx, ht)
+            h, err = RawSignatureHash(CScript(script), tx, idx, ht)
+            if h != want or (err is not None) != werr:
+                raise Viol('RawSignatureHash on a 300-input transaction, idx=%d, hashtype=%#04x' % (idx, ht), (want.hex(), werr), (bytes(h).hex(), err))
+        if mut and snapshot(tx) != before:
+            raise Viol('signature hashing changed the 300-input transaction it was given', None, None)
+        return 'ok', True, len(self.HTS)
+
+
+class HugePush(Family):
+    """subscripts containing one push of 2^24 - 1 / 2^24 / 2^24 + 1 bytes (PUSHDATA4 with a non-zero top length byte)
+    whose data contains CODESEPARATOR bytes that must stay"""
+    name = 'pushdata4_16MiB_subscript'
+    nontrivial_rule = 'every case'
+
+    def shards(self, tier):
+        return [(1 << 24) - 1, 1 << 24, (1 << 24) + 1]
+
+    def cases(self, shard, tier):
+        yield shard
+
+    def check(self, n):
+        from bitcoin.core.script import RawSignatureHash, CScript
+        data = (b'\xab\x01\xab\x00' * (n // 4 + 1))[:n]
+        script = b'\xab\x4e' + n.to_bytes(4, 'little') + data + b'\xab\x51'
+        m = C.default_tx(1, 1)
+        tx = C.lib_tx(m)
+        for ht in (0x01, 0x83):
+            want, werr = SH.legacy(script, m, 0, ht)
+            h, err = RawSignatureHash(CScript(script), tx, 0, ht)
+            if h != want:
+                raise Viol('RawSignatureHash with a subscript holding a %d-byte push' % n, want.hex(), bytes(h).hex())
+        return 'ok', True, 2
+
+
 def families(tier):
-    return [Legacy()]
+    return [Legacy(), ManyInputs(), HugePush()]
